@@ -30,7 +30,7 @@ from . import C09 as c09
 from . import C10 as c10gen
 
 PROP = "C01"
-LEAN_TARGETS = ["Eliot.Properties.C01", "Eliot.Properties.C01View"]
+LEAN_TARGETS = ["Eliot.Properties.C01", "Eliot.Properties.C01View", "Eliot.Properties.C01Flat"]
 AUDIT = "Eliot/Audit/C01.lean"
 THEOREMS = [
     "Sys.Emit.execS_emits", "Sys.Emit.execB_emits", "Sys.Emit.execB_top", "Sys.Emit.F.proj", "Sys.Emit.denB_range",
@@ -39,6 +39,8 @@ THEOREMS = [
     "Sys.C01.extracted_fields", "Sys.Emit.extOf_nearest",
     "Sys.execB_vars", "Sys.Emit.execX_emits", "Sys.Emit.execX_top", "Sys.C01.explicit_node", "Sys.C01.explicit_same_as_with",
     "Sys.C01.handle_same_as_with", "Sys.C01.tagView_faithful", "Sys.C01.exStage_ok",
+    # the round trip ends in the parser as the code runs it (flat `_nodes` tasks)
+    "Sys.C01.roundtrip_flat",
 ]
 RULE = ("structured logging programs from harness/sysgen.py (profile: no explicit handles / remote ids, no failing serializers or "
         "destinations, destinations [recording, binary FileDestination, text FileDestination] registered first, typed actions and "
